@@ -94,12 +94,7 @@ func runC08(p *load.Program, r *core.Report) {
 			if set == nil {
 				probs = append(probs, "strategy value set unknown at the restart point")
 			}
-			var reasonPar *ssa.Parameter
-			for _, pa := range f.Params {
-				if pa.Name() == "reason" {
-					reasonPar = pa
-				}
-			}
+			reasonPar := paramOfType(f, "error", 0)
 			for v := range set {
 				switch names[v] {
 				case "SupervisorStrategyPermanent":
@@ -411,20 +406,15 @@ func runC08(p *load.Program, r *core.Report) {
 		okDrain := false
 		eachInstr(f, func(in ssa.Instruction) {
 			b, ok := in.(*ssa.BinOp)
-			if !ok || b.Op != token.GTR {
+			if !ok {
 				return
 			}
-			c, okc := b.X.(*ssa.Call)
-			if !okc {
-				return
-			}
-			if bi, okb := c.Common().Value.(*ssa.Builtin); !okb || bi.Name() != "len" {
-				return
-			}
-			if _, path, okp := fieldPath(c.Common().Args[0]); !okp || len(path) == 0 || path[len(path)-1] != "wait" {
-				return
-			}
-			_, fl, _ := boolEdges(b)
+			fl := leqEdges(b, func(v ssa.Value) bool {
+				return isLenCallOf(v, func(x ssa.Value) bool {
+					_, path, okp := fieldPath(x)
+					return okp && len(path) > 0 && path[len(path)-1] == "wait"
+				})
+			}, 0)
 			// on the empty edge: action.do = supActionTerminate and reason = s.shutdownReason
 			for _, e := range fl {
 				blk := e.To()
@@ -496,19 +486,14 @@ func runC09(p *load.Program, r *core.Report) {
 		return
 	}
 	fn := fname(f)
-	var restarts, period, intensity *ssa.Parameter
-	for _, pa := range f.Params {
-		switch pa.Name() {
-		case "restarts":
-			restarts = pa
-		case "period":
-			period = pa
-		case "intensity":
-			intensity = pa
-		}
-	}
-	if restarts == nil || period == nil || intensity == nil || len(f.Params) != 3 {
+	if len(f.Params) != 3 {
 		r.Unk("C09.anchors", "C09.anchors|params", fn, p.Pos(f.Pos()), "parameters (restarts, period, intensity)", "signature changed")
+		return
+	}
+	// by position and type: ([]int64, int, int)
+	restarts, period, intensity := f.Params[0], f.Params[1], f.Params[2]
+	if _, ok := restarts.Type().Underlying().(*types.Slice); !ok {
+		r.Unk("C09.anchors", "C09.anchors|params", fn, p.Pos(f.Pos()), "parameters (restarts, period, intensity)", "first parameter is not the restart list")
 		return
 	}
 	// ---- I1 units
